@@ -44,7 +44,8 @@ TANDEM_CANDIDATES = ['*clefG2', '*clefF4', '*clefC3', '*clefC1', '*clefGv2', '*c
 # stated, by the parser of the pinned tree.  A member the CURRENT parser no longer gives that class is still generated (appended
 # after the members obtained by probing, so that selector indices do not move on an unchanged tree): the obligations then report
 # the lost / re-classified member as a violation of C01 / C03 instead of silently checking a smaller domain.
-DUR_PINNED = ['1', '2', '4', '8', '16', '32', '64', '3', '6', '12', '24', '0', '00', '3%2', '40', '128']
+DUR_PINNED = ['1', '2', '4', '8', '16', '32', '64', '3', '6', '12', '24', '0', '00', '3%2', '40', '128',
+              '4%2', '6%4', '3%1', '2%3']       # rational durations that are not in lowest terms / over 1 / below 1: written as they are
 ACC_PINNED = ['#', '-', 'n', '##', '--', '###', '---']
 DISP_PINNED = ['x', 'X', 'i', 'I', 'j', 'Z', 'y', 'yy', 'Y', 'YY']
 DEC_PINNED = DEC_CORE + DEC_ONLY_CORE + ['p', 'q', 'x', 'y', 'P', '.', '<', '>', '?', 'qq', 'yy', 'y@', 'xx', 'Ww', '[y', '&(', '&)', 'L<', 'J>', '[<', ']>', '_<', '??', 'yyy']
